@@ -1,10 +1,18 @@
 import Pike.Lemmas.Resp
+import Pike.Spec.Skeleton
+import Pike.Facts
 /-
 C13 — content-encoding negotiation follows the documented decision table (docs/response.md).
 -/
 namespace Pike
 namespace C13
 open Resp Str MiniRe
+
+/-- Obligation on the regenerated statement skeletons of `shouldCompressed` and `getBodyByAcceptEncoding`: they are, statement for statement, the decision procedure `Resp.negotiate` transcribes (stored br, stored gzip, size/type test, br before gzip, identity). -/
+theorem skeleton_transcribed :
+    Facts.skel_HTTPResponse_shouldCompressed = Spec.Skeleton.HTTPResponse_shouldCompressed
+    ∧ Facts.skel_HTTPResponse_getBodyByAcceptEncoding = Spec.Skeleton.HTTPResponse_getBodyByAcceptEncoding := by
+  refine ⟨?_, ?_⟩ <;> rfl
 
 /-- the rows of the documented table -/
 inductive Choice | storedBr | storedGzip | identity | freshBr | freshGzip
